@@ -393,7 +393,7 @@ func genDur(r *RNG) time.Duration {
 // a p% coin; in enumeration mode (C10) the sites of a case are numbered in generation order and
 // exactly the site number enumFaults.at is faulted. The coin is drawn in both modes, so that the
 // rest of the case is identical across the variants.
-type faultEnum struct{ site, at int }
+type faultEnum struct{ site, at, at2 int } // at2 < 0: single fault
 
 var enumFaults *faultEnum
 
@@ -404,7 +404,7 @@ func faultSite(r *RNG, p int) bool {
 	}
 	i := enumFaults.site
 	enumFaults.site++
-	return i == enumFaults.at
+	return i == enumFaults.at || (enumFaults.at2 >= 0 && i == enumFaults.at2)
 }
 
 // ---------- reflected values ----------
